@@ -16,7 +16,7 @@ import ast
 import itertools
 import re
 
-from ..absdom import FLAGS, PregexHooks, make_operand, parse_regex
+from ..absdom import FLAGS, PregexHooks, compiles, make_operand, parse_regex
 from ..interp import FuncRef, Incomplete, Interp, Obj, PyRaise
 from ..model import AnalysisError, Model, mangle, norm_text
 from .. import finlang as FL
@@ -433,7 +433,8 @@ def _sweep_core(ctx, model, exc_classes):
         doc = documented(f) | (documented(ci.methods["__init__"]) if ci is not None and "__init__" in ci.methods else set())
         var = a.vararg.arg if a.vararg is not None else None
         targets = list(params) + ([var] if var else [])
-        base_cases = [(None, None)] + [(t, v) for t in targets for v in BAD_VALUES + ["<pregex>", "<empty-pregex>", "<nonrep>"]]
+        base_cases = [(None, None)] + [(t, v) for t in targets for v in BAD_VALUES + ["<pregex>", "<empty-pregex>", "<nonrep>",
+                                                                                  "<q-atleast>", "<q-optional>", "<q-range-lazy>"]]
         for tgt, val in base_cases:
             if B.NONTERM[0] > 12:
                 ctx.note("sweep stopped early: more than 12 inputs exhausted the step budget (non-termination already reported)")
@@ -485,11 +486,11 @@ def _sweep_core(ctx, model, exc_classes):
                                       f"{label} raises {o.exc.name}, which its documentation does not list", f.node.lineno, inp=inp)
                 elif o.text is not None and ci is None or (o.text is not None and ci is not None and ci.module.name != "pregex.core.classes"):
                     ctx.instance("R-COMPILE", key=(inp, o.text))
-                    try:
-                        parse_regex(_with_groups(o.text))
-                    except re.error as e:
+                    okc, why = compiles(_with_groups(o.text))
+                    if not okc:
                         ctx.violation("R-COMPILE", f.relpath, f.short, "<returned pattern>",
-                                      "returns a pattern that re rejects", f.node.lineno, inp=inp, detail=f"{o.text!r}: {e}")
+                                      "returns a pattern that re rejects when it is first used", f.node.lineno, inp=inp,
+                                      detail=f"{o.text!r}: {why}")
     ctx.extra["core_sweep_cases"] = n_cases
 
 
@@ -518,6 +519,12 @@ def _val(model, v):
         return make_operand(model, "", "Empty", True)
     if v == "<nonrep>":
         return make_operand(model, "^vw", "Assertion", False)
+    if v == "<q-atleast>":
+        return make_operand(model, "v{2,}", "Quantifier", True)
+    if v == "<q-optional>":
+        return make_operand(model, "(?:vw)?", "Quantifier", True)
+    if v == "<q-range-lazy>":
+        return make_operand(model, "[vw]{1,3}?", "Quantifier", True)
     if isinstance(v, list):
         return list(v)
     return v
